@@ -28,7 +28,9 @@ def new_pregex(eng, path, label, tname, cls=None, text=None, cats=None, repeatab
         if tname == "Empty":
             text = ""
         else:
-            text = SStr([Atom(z3.String(f"pat_{label}_{obj.oid}"), "pat", info)])
+            t = z3.String(f"pat_{label}_{obj.oid}")
+            path.assume(z3.Length(t) > 0)
+            text = SStr([Atom(t, "pat", info)])
     f = path.fields(obj)
     f["_Pregex__pattern"] = text
     f["_Pregex__type"] = type_enum(eng, tname)
@@ -227,6 +229,36 @@ def sb_GRPTEXT(eng, path, p):
     return path.getf(obj, "_Pregex__pattern")
 
 
+FIXEDW_F = z3.Function("FIXEDW", StrS, BoolS)
+LBMSG = "look-behind requires fixed-width pattern"
+
+
+def sb_FIXEDW(eng, path, text):
+    """R6: re accepts the text as a look-behind body iff it has one fixed width (uninterpreted; see B6)"""
+    return FIXEDW_F(str_term(text))
+
+
+def ext_re_compile(eng, path, args, kwargs):
+    """re.compile(text, flags) as an external with an assumed contract (R6, R8)"""
+    text = args[0]
+    if isinstance(text, SStr) and len(text.pieces) >= 2 and isinstance(text.pieces[0], str) and text.pieces[0].startswith("(?<=") \
+            and isinstance(text.pieces[-1], str) and text.pieces[-1].endswith(")"):
+        body = mkstr(text.pieces[0][4:], *text.pieces[1:-1], text.pieces[-1][:-1])
+        w = FIXEDW_F(str_term(body))
+        i = path.choose([("compiled", w), ("fixed-width error", z3.Not(w)), ("other re.error", w)], "re.compile")
+        if i == 0:
+            return Obj("re.Pattern", kind="compiled")
+        e = Obj("error", kind="exception")
+        if i == 1:
+            path.setf(e, "msg", LBMSG, frame=False)
+        else:
+            m = eng.fresh("remsg", StrS)
+            path.assume(m != z3.StringVal(LBMSG))
+            path.setf(e, "msg", SStr([Atom(m, "opq")]), frame=False)
+        raise RaiseExc("error", e, info="re.error from re.compile")
+    raise Limitation("re.compile on a text that is not a look-behind probe")
+
+
 SPEC_BUILTINS = {k[3:]: v for k, v in list(globals().items()) if k.startswith("sb_")}
 
 
@@ -306,7 +338,14 @@ def ret_newpregex(eng, path, env, fi, contract):
     return obj
 
 
-RETURNS = {"pregex": ret_pregex, "expr": ret_expr, "newpregex": ret_newpregex}
+def ret_to_pregex(eng, path, env, fi, contract):
+    pre = env["pre"]
+    if isinstance(pre, Obj) and pre.kind == "pregex":
+        return pre
+    return ret_newpregex(eng, path, {"pattern": pre, "escape": True}, fi, contract)
+
+
+RETURNS = {"to_pregex": ret_to_pregex, "pregex": ret_pregex, "expr": ret_expr, "newpregex": ret_newpregex}
 
 
 # ------------------------------------------------------------------------------------------------------
@@ -341,5 +380,6 @@ def build_engine(index, contracts):
         table[q] = c
     eng = Engine(index, table, dict(SPEC_BUILTINS))
     eng.last_detail = None
+    eng.externals["re.compile"] = ext_re_compile
     load_spec_module(eng)
     return eng
